@@ -888,3 +888,37 @@ def _one_case(ctx, spec, i, cfg, tmp):
     if b2 != b3:
         diffs = [(p, k) for p, k, _, _ in c12_ref.json_diff(json.loads(b2), json.loads(b3))][:4]
         viol("resave/not-idempotent", "save(load(.)) is not byte-idempotent from the second round", first_differences=[["/".join(map(str, p)), k] for p, k in diffs])
+    # ---- a refused update leaves the live model as it was (still self-consistent: it saves the same file) ----------------------------
+    if stateful and kind not in ("lme", "constant") and b2 == b3:
+        from leaspy.exceptions import LeaspyModelInputError
+
+        try:
+            bad = dict(_hand_parameters(rng, kind, dim, src_now if src_now is not None else src, noise, case.get("n_clusters")))
+        except Exception as e:
+            bad = None
+            ctx.note("refused_update_setup_error", repr(e)[:200])
+        if bad:
+            bad["xi_sdt" if "xi_sdt" not in bad else "xi_sdt2"] = 0.3  # a name the model does not know (typo): documented as refused
+            refused = False
+            try:
+                m3.load_parameters(bad)
+            except LeaspyModelInputError:
+                refused = True
+            except Exception:
+                refused = None
+            if refused:
+                ctx.count("refused_updates_checked")
+                f4 = os.path.join(tmp, "m4.json")
+                try:
+                    m3.save(f4, **save_kw)
+                    with open(f4, "rb") as fc:
+                        b4 = fc.read()
+                    if b4 != b3:
+                        diffs = [(p_, k_) for p_, k_, _, _ in c12_ref.json_diff(json.loads(b3), json.loads(b4))][:4]
+                        viol("load_parameters/refused-update-left-a-trace", "an update refused for an unknown variable name changed what the model saves (a refused "
+                             "call must leave the model as it was)", first_differences=[["/".join(map(str, p_)), k_] for p_, k_ in diffs])
+                    else:
+                        with open(f4) as fc:
+                            _self_consistency(ctx, case, m3, json.load(fc)["parameters"], "reloaded", probe, viol)
+                except Exception as e:
+                    viol(f"load_parameters/refused-update-breaks-save-{type(e).__name__}", f"after a refused update save raises {type(e).__name__}: {str(e)[:200]}")
